@@ -712,7 +712,15 @@ def copy_chain_sources(body, op_or_local, through_calls=()):
                     pl = op_place(rv['a'])
                     go(pl['l'], field_path(pl) + path)
                 elif rv['k'] == 'agg':
-                    out.append(('agg', rv, path))
+                    if rv.get('tuple') and path and path[0].isdigit() and int(path[0]) < len(rv['ops']):
+                        o = rv['ops'][int(path[0])]
+                        if 'c' in o:
+                            out.append(('const', o['c'].get('s'), o['c']))
+                        else:
+                            pl = op_place(o)
+                            go(pl['l'], field_path(pl) + path[1:])
+                    else:
+                        out.append(('agg', rv, path))
                 else:
                     out.append(('other', rvstr(rv)))
             else:
